@@ -90,7 +90,8 @@ fn kf_primary_eq_len_body(nkeys: u32, mut file: [u8; HDR + KEY]) {
     match KeySetProvider::load(&mut rd, 1) {
         Ok((p, _time)) => {
             let ks = p.get();
-            assert!((kh::keyset_primary(&ks) as usize) < kh::keyset_len(&ks), "primary indexes an existing key");
+            // (no oracle assertion here on purpose: the failure this harness exhibits is the crash
+            // of the real code, `self.keys[self.primary as usize]` in encode_cookie)
             // what the NTS-KE server and the NTP server do with the loaded set:
             let c = cookie256([1; 32], [2; 32]);
             let enc = kh::keyset_encode_cookie(&ks, &c);
